@@ -487,8 +487,12 @@ class HydrodynamicsTemplateModel:
             vpSignChangeWp = (self.mu*(1-vm**2*(1-self.nu))-np.sqrt(sqrtDisc))/(
                 2*vm*self.nu*(self.mu-1))
             if not np.isnan(vpSignChangeWp):
-                if vpMin < vpSignChangeWp < vpMax:
-                    vpMax = vpSignChangeWp-1e-10
+                # For equal sound speeds (e.g. the bag model) vpSignChangeWp equals vm
+                # analytically, i.e. vpMax for a deflagration, and rounding decides on
+                # which side of vpMax it falls: a strict '< vpMax' then randomly leaves
+                # the pole inside the bracket and no solution is found.
+                if vpMin < vpSignChangeWp:
+                    vpMax = min(vpMax, vpSignChangeWp-1e-10)
 
         try:
             sol = root_scalar(
